@@ -655,3 +655,43 @@ def c12(tier, seed):
                            "cancelled_units_never_started"]
     c.required_points = ["SCHEDULE_CANCELLED"]
     return c
+
+
+@prop("C13")
+def c13(tier, seed):
+    c = Check("C13", tier, seed)
+    q = tier == "quick"
+    c.rule = ("each case = one scenario: 3-4 streams with private pools (one with a user-defined scheduler), a migratable ULT "
+              "that records the pool of every scheduling slice; phase A: 20-80 sequential requests (migrate_to_pool / "
+              "_to_xstream / _to_sched) on the parked unit, each checked exactly (moved within two scheduling points, exactly "
+              "one callback with the right arguments; requests naming the current pool rejected without effect); phase C: "
+              "non-migratable unit and main-scheduler ULT rejected; phase D: ABT_thread_migrate x8 must move the unit to a "
+              "pool of another running stream (and fail when only one stream exists); phase B: 1-3 concurrent requesters "
+              "(ULT/external) plus self-issued requests racing with the unit's yields: a request recorded two scheduling "
+              "points ago and not superseded must be in effect, callbacks <= requests; first-request race of two external "
+              "threads on a fresh unit (LSan/TSan); distinct = distinct (variant, delay, scenario signature)")
+    c.assumptions = ["requests are issued and recorded under one harness lock, and the expected pool is 'unknown' while a "
+                     "request call is in flight (its target may legitimately take effect before the call returns)",
+                     "user-defined source/target pools are exercised by the C14 check"]
+    profiles = [hammer("MIGRATE_BEFORE_CLEAR", "MIGRATE_AFTER_TARGET_SET", "SCHEDULE_MIGRATED"), "uniform", "off",
+                hammer("MIGRATE_BEFORE_CLEAR", "YIELD_SAVED", "PUSH_BEFORE_LOCK", "POP_NONEMPTY_SEEN")]
+    for i, s in enumerate(seeds(seed, 6 if q else 48)):
+        args = ["--seed", s, "--mode", "migrate", "--scenarios", 8 if q else 60, "--delay", profiles[i % 4],
+                "--watchdog", 90 if q else 900]
+        if i % 3 == 2:
+            args += ["--squeeze", 2]
+        c.add(Run("h_units", "mon", args, weight=5, tag="migrate%d" % i))
+    for i, s in enumerate(seeds(seed, 1 if q else 5, salt=1)):
+        c.add(Run("h_units", "asan", ["--seed", s, "--mode", "migrate", "--scenarios", 4, "--delay", profiles[i % 4],
+                                      "--watchdog", 90], weight=5, tag="asan%d" % i))
+    for i, s in enumerate(seeds(seed, 1 if q else 5, salt=2)):
+        c.add(Run("h_units", "tsan", ["--seed", s, "--mode", "migrate", "--scenarios", 2, "--delay", profiles[i % 4],
+                                      "--watchdog", 90], weight=5, tag="tsan%d" % i))
+    c.nontrivial = lambda r: True
+    c.required_counters = ["sequential_migrations_checked_exactly", "concurrent_requests_accepted",
+                           "concurrent_requests_rejected_same_pool", "self_issued_requests", "callbacks",
+                           "rejected_current_pool", "rejected_non_migratable", "rejected_main_scheduler_ult",
+                           "thread_migrate_moved_to_other_stream", "thread_migrate_no_target_rejected", "migrate_to_xstream",
+                           "migrate_to_sched", "first_request_races"]
+    c.required_points = ["MIGRATE_BEFORE_CLEAR", "MIGRATE_AFTER_TARGET_SET", "SCHEDULE_MIGRATED"]
+    return c
